@@ -6,7 +6,9 @@ tie        : harness/extractors/c01.py -> coq/Gen/ConstsC01.v (EPS, Vector table
              inside Coq at the implementation's inputs, compared with the
              implementation's outputs (forward, backward, backward_censored)
 oracle     : numeric round trips on the implementation (relative 1e-6 inside the
-             conditioning region of the property), shapes/types through dutils.cast
+             conditioning region of the property), shapes/types through dutils.cast;
+             input class X (threshold exponents x extreme logarithms) and the stateful
+             mode (one object, many settings) are oracle-only
 """
 import math
 import os
@@ -132,7 +134,13 @@ def run(ctx):
                 "branch values lam=0, |lam|=EPS and one ulp either side, isclose thresholds of "
                 "Yeo-Johnson, log-uniform magnitudes 1e-12..10) x domain points inside the conditioning "
                 "region of the property; methods forward, backward, backward_censored through the "
-                "public API (direct construction and get_transform); non-trivial = distinct "
+                "public API (direct construction and get_transform); oracle only: class X = exponents at "
+                "and either side of every threshold of the module (EPS, 1e-8, 1e-8+2e-5; 0 and 2) x "
+                "arguments with x+nu resp. 1+|w| in 1e-100..1e100 inside |lam*ln| <= 13.8; stateful = "
+                "one object per class and constructor variant taken through a sequence of settings "
+                "(element assignment by attribute / key / key on .params, whole-vector assignment, "
+                "reset()) with round trips and comparison with a fresh object after each step; "
+                "non-trivial = distinct "
                 "(class, method, parameter branch, sign of x, NaN/exception expected) signature")
     ctx.trusted = cm.STD_TRUST + [
         "no binary64 instance for transcendental closed forms: engine E3 evaluates the real-number "
@@ -145,6 +153,9 @@ def run(ctx):
         "floating-point accuracy of the round trips (relative 1e-6 in the conditioning region) - "
         "tested on the implementation",
         "dutils.cast glue (scalar / n-d inputs), get_transform, Vector clipping of stored values",
+        "independence of the results from the history of one object (parameters changed in place, by "
+        "whole-vector assignment, reset()): tested (stateful mode), the model is a pure function of "
+        "the stored values",
         "Yeo-Johnson in the band 0 < w < 1e3*EPS above the forward/backward switch (exact "
         "invertibility is false there; DESIGN 5/C01 G)",
     ]
@@ -373,11 +384,19 @@ def run(ctx):
     # ---- shapes / scalar types through dutils.cast (float scalars, n-d arrays)
     shape_checks(ctx)
 
+    # ---- oracle-only input classes (after everything that feeds E3: the random stream of
+    # the instances above does not depend on them)
+    t2 = time.time()
+    extreme_checks(ctx)
+    stateful_checks(ctx)
+    t_extra = time.time() - t2
+
     # ---- E3
     t1 = time.time()
     bad, nok, nshards, failed = tc.run_e3(PID, goals, shard=ctx.scale(40, 60))
     ctx.notes["timing_s"] = {"prove": round(t_prove, 1), "generate+oracle": round(t1 - t0 - t_prove, 1),
-                             "e3": round(time.time() - t1, 1)}
+                             "e3": round(time.time() - t1, 1),
+                             "classX+stateful": round(t_extra, 1)}
     ctx.notes["correspondence_goals"] = len(goals)
     ctx.notes["correspondence_mismatches"] = len(bad)
     ctx.notes["e3_shards"] = nshards
@@ -396,6 +415,175 @@ def run(ctx):
               lambda i: {"case": meta[i], "goal": goals[i], "model": "Hy.Model.Transform (tr_solve)"},
               "Model/Transform.v vs stat/transform.py (E3: forward, backward, backward_censored)")
     return ctx.finish()
+
+
+def roundtrip_failures(t, name, opts, eff, xs):
+    """the round-trip oracle of the main loop on a list of in-region points:
+    [(failure mode, replay fields, text)]"""
+    out = []
+    rtol = rt_rtol(name, eff)
+    ys, err = tc.call(t, "fwd", xs)
+    if ys is None:
+        return [("forward-raises", {"method": "forward", "x": xs, "exception": err},
+                 f"forward({xs!r}) raised {err} inside the domain")]
+    fin = []
+    for x, y in zip(xs, ys):
+        if math.isnan(y):
+            out.append(("forward-nan-in-domain", {"method": "forward", "x": x, "output": y},
+                        f"forward({x!r}) is NaN inside the domain"))
+        elif math.isfinite(y):
+            fin.append((x, y))
+    if not fin:
+        return out
+    bs, berr = tc.call(t, "bwd", [y for _, y in fin])
+    if bs is None:
+        out.append(("backward-raises", {"method": "backward", "y": [y for _, y in fin], "exception": berr},
+                    f"backward(forward({[x for x, _ in fin]!r})) raised {berr}"))
+        return out
+    again = []
+    for (x, y), b in zip(fin, bs):
+        if math.isnan(b):
+            out.append(("backward-nan-on-image", {"method": "backward", "x": x, "y": y, "output": b},
+                        f"backward(forward({x!r})) is NaN"))
+            continue
+        if not in_accuracy_region(name, eff):
+            continue
+        if not abs(b - x) <= rtol * x_scale(name, opts, eff, x):
+            out.append(("roundtrip-backward-forward", {"method": "backward", "x": x, "y": y, "output": b},
+                        f"backward(forward({x!r})) = {b!r}"))
+        if math.isfinite(b):
+            again.append((y, b))
+    if again:
+        f2, _ = tc.call(t, "fwd", [b for _, b in again])
+        for q, (y, b) in enumerate(again):
+            y2 = None if f2 is None else f2[q]
+            if y2 is None or not abs(y2 - y) <= rtol * y_scale(name, opts, eff, y):
+                out.append(("roundtrip-forward-backward",
+                            {"method": "forward(backward(y))", "y": y, "x": b, "output": y2},
+                            f"forward(backward({y!r})) = {y2!r}"))
+    return out
+
+
+def extreme_checks(ctx):
+    """input class X (transform_common): threshold exponents x extreme logarithms,
+    same oracle, same keys as the main loop"""
+    n = 0
+    for name in ("Log", "BoxCox2", "BoxCox1lam", "BoxCox1nu", "BoxCox2sym", "YeoJohnson"):
+        cm.mark({"call": "transform (class X)", "class": name})
+        for k, (opts, vals) in enumerate(tc.extreme_vectors(name)):
+            via_get = k % 8 == 3          # (get_transform inspects the signature: slow)
+            t, eff = tc.make(name, opts, vals, via_get)
+            xs = tc.extreme_points(name, opts, eff)
+            if not xs:
+                continue
+            base = {"class": name, "opts": opts, "values": eff, "via_get_transform": via_get,
+                    "input_class": "threshold exponent x extreme logarithm"}
+            for mode, rep, text in roundtrip_failures(t, name, opts, eff, xs):
+                ctx.failure(f"C01/{name}/{mode}", dict(base, **rep), f"{name}{opts} {eff}: {text}")
+            for x in xs:
+                ctx.count((name, "X") + branch_sig(name, eff, x))
+            n += len(xs)
+    ctx.notes["classX_points"] = n
+
+
+def _same(a, b, scale):
+    """bit-identical, or within 1e-9 of the scale (a thousandth of the property's
+    tolerance: a last-bit difference must not alarm, a stale value does)"""
+    if a is None or b is None:
+        return a is None and b is None
+    if a == b or (math.isnan(a) and math.isnan(b)):
+        return True
+    return abs(a - b) <= 1e-9 * scale
+
+
+def stateful_checks(ctx):
+    """one object, a sequence of settings: after every change the object must be the
+    transform of its CURRENT stored values - round trips hold, and forward/backward
+    equal those of a freshly constructed object holding the same values"""
+    rng = ctx.rng
+    nsteps = ctx.scale(12, 40)
+    nobj = 0
+    for name in tc.CLASSES:
+        variants = tc.ctor_variants(name, rng)
+        if not tc.bounds(name, variants[0]):      # Identity, Softmax: nothing to set
+            continue
+        for vi, opts in enumerate(variants):
+            first, steps = tc.stateful_plan(name, opts, rng, nsteps)
+            cm.mark({"call": "transform (stateful)", "class": name, "opts": opts, "first": first,
+                     "steps": steps})
+            t, _ = tc.make(name, opts, first, via_get=vi % 2 == 1)
+            history = [("construct", first)]
+            nobj += 1
+            for si in range(len(steps) + 1):
+                if si:
+                    style, changes = steps[si - 1]
+                    history.append((style, changes))
+                    try:
+                        tc.apply_step(t, style, changes)
+                    except Exception as e:      # noqa: BLE001
+                        ctx.failure(f"C01/{name}/stateful-set-raises",
+                                    {"class": name, "opts": opts, "history": history, "exception": repr(e)},
+                                    f"{name}{opts}: {style} {changes} raised {type(e).__name__}")
+                        break
+                else:
+                    style = "construct"
+                eff = tc.stored_values(t)
+                if any(math.isnan(v) for v in eff.values()):
+                    continue
+                base = {"class": name, "opts": opts, "history": list(history), "values": eff,
+                        "input_class": "stateful: one object, parameters changed between calls"}
+                fresh, eff2 = tc.make(name, opts, eff)
+                if eff2 != eff:           # cannot happen for values inside the bounds; not C01's matter
+                    ctx.notes["stateful_fresh_object_differs"] = ctx.notes.get("stateful_fresh_object_differs", 0) + 1
+                    continue
+                xs = tc.points(name, opts, eff, rng, 4)
+                if name == "BoxCox2sym" and xs:      # |x| of the order of nu, both signs
+                    L = tc._lnz_limit(eff["lam"])
+                    xs += [s * c * eff["nu"] for c in (0.01, 0.5, 2.0) for s in (1, -1)
+                           if abs(math.log((c + 1) * eff["nu"])) <= L]
+                cmp_xs = xs or [0.25, 1.0, 5.0]
+                # (1) same results as a fresh object with the same stored values
+                yr, er = tc.call(t, "fwd", cmp_xs)
+                yf, ef = tc.call(fresh, "fwd", cmp_xs)
+                diff = None
+                if (yr is None) != (yf is None) or er != ef:
+                    diff = ("forward", cmp_xs, yr or er, yf or ef)
+                elif yr is not None:
+                    for x, a, b in zip(cmp_xs, yr, yf):
+                        if not _same(a, b, y_scale(name, opts, eff, b) if math.isfinite(b) else 1.0):
+                            diff = ("forward", x, a, b)
+                            break
+                    if diff is None:
+                        yb = [b for b in yf if math.isfinite(b)]
+                        br, ebr = tc.call(t, "bwd", yb) if yb else ([], None)
+                        bf, ebf = tc.call(fresh, "bwd", yb) if yb else ([], None)
+                        if (br is None) != (bf is None) or ebr != ebf:
+                            diff = ("backward", yb, br or ebr, bf or ebf)
+                        elif br is not None:
+                            for y, a, b in zip(yb, br, bf):
+                                if not _same(a, b, x_scale(name, opts, eff, b) if math.isfinite(b) else 1.0):
+                                    diff = ("backward", y, a, b)
+                                    break
+                if diff is not None:
+                    meth, arg, got, want = diff
+                    ctx.failure(f"C01/{name}/stateful-{meth}-differs-from-fresh-object",
+                                dict(base, method=meth, argument=arg, output=got, fresh_object_output=want),
+                                f"{name}{opts} after {len(history) - 1} change(s) on one object (last: {history[-1]}) holding "
+                                f"{eff}: {meth}({arg!r}) = {got!r}, a fresh object with the same values "
+                                f"gives {want!r}")
+                # (2) round trips on the reused object; a failure that the fresh object shows
+                # too is not a matter of state: ordinary key
+                if xs:
+                    fails = roundtrip_failures(t, name, opts, eff, xs)
+                    if fails:
+                        stateless = {m for m, _, _ in roundtrip_failures(fresh, name, opts, eff, xs)}
+                        for mode, rep, text in fails:
+                            key = f"C01/{name}/{mode}" if mode in stateless else f"C01/{name}/stateful-{mode}"
+                            ctx.failure(key, dict(base, **rep),
+                                        f"{name}{opts} after {len(history) - 1} change(s) on one object (last: {history[-1]}) "
+                                        f"holding {eff}: {text}")
+                ctx.count((name, "stateful", style, len(history) > 1), n=len(cmp_xs))
+    ctx.notes["stateful_objects"] = nobj
 
 
 def shape_checks(ctx):
